@@ -370,7 +370,15 @@ def rule_RC(ctx, fm):
             isinstance(n.targets[0], ast.Name) and sum(
                 isinstance(c, ast.Compare) for c in ast.walk(n.value)) >= 4
             and 'nodes_' in ast.unparse(n.value)]
-    ctx.anchor(len(inds) == 1, 'NaN mask in get_receiver')
+    if len(inds) != 1:
+        ctx.fail('C09.RC.mask', 'get_receiver: one NaN mask over the three '
+                 'directions', 'the mask "receiver in an outermost cell" is '
+                 'not one test over x, y and z that is applied to every '
+                 'receiver (it is split / applied per field component): '
+                 'receivers in an outermost cell of a direction whose field '
+                 'component is not sampled return a number instead of NaN',
+                 ctx.where(fm, gr))
+        return
     ind = inds[0].targets[0].id
     cmps = [c for c in ast.walk(inds[0].value) if isinstance(c, ast.Compare)]
     got = set()
@@ -637,6 +645,24 @@ def run(ctx):
     rule_PV(ctx, fm)
     rule_RC(ctx, fm)
     rule_flat_order(ctx, fm)
+    # the magnetic field is computed with the model ON THE GRID OF THE FIELD
+    # (the volumes in zeta and the widths in the curl must belong together)
+    sm_ = ctx.repo.mod('emg3d/simulations.py')
+    gr_ = sm_.method('Simulation', '_get_responses')
+    gps = au.params(gr_)
+    mc = au.calls(gr_, 'fields.get_magnetic_field')
+    ctx.anchor(len(mc) == 1 and mc[0].args, 'get_magnetic_field call in '
+               'Simulation._get_responses')
+    mvals = {ast.unparse(v_) for v_ in au.values_of(mc[0].args[0], [gr_])}
+    ctx.check('C09.EC.callsite', 'Simulation: magnetic responses from the '
+              'model on the computational grid', mvals == {
+                  f'self.get_model({gps[1]}, {gps[2]})'},
+              f'get_magnetic_field gets the model {sorted(mvals)}: unless it '
+              'is the model interpolated to the grid of the electric field, '
+              'the cell volumes in V/mu_r and the widths of the curl belong '
+              'to different grids and the sampled magnetic field is not the '
+              'discrete Faraday law (nor the transpose of the magnetic point '
+              'source)', ctx.where(sm_, mc[0]))
     # the source vector / the sampled value are FUNCTIONS of (grid, position,
     # field): nothing is remembered on the source, grid or field objects
     # between calls (a remembered vector is scaled in place by the next
